@@ -25,10 +25,13 @@ type CType struct {
 	Name string // possibly qualified "pkg.T"
 	Len  *CExpr
 	Elem *CType
+	Key  *CType // map key type
 }
 
 func (t *CType) String() string {
 	switch t.Kind {
+	case "map":
+		return "map[" + t.Key.String() + "]" + t.Elem.String()
 	case "array":
 		return "[" + t.Len.String() + "]" + t.Elem.String()
 	case "slice":
@@ -288,6 +291,12 @@ func (p *eparser) ctype() *CType {
 	t := p.next()
 	if t.kind != "id" {
 		panic(fmt.Errorf("type expected at %q in %q", t.s, p.src))
+	}
+	if t.s == "map" && p.isOp("[") {
+		p.next()
+		k := p.ctype()
+		p.expect("]")
+		return &CType{Kind: "map", Key: k, Elem: p.ctype()}
 	}
 	name := t.s
 	if p.isOp(".") && p.toks[p.p+1].kind == "id" {
